@@ -98,6 +98,11 @@ if __name__ == "__main__":
                 cli_bins()
             elif w == "pyext":
                 pyext()
+            elif w == "miri":
+                import sanitizers
+                r = sanitizers.miri_c12_leg("quick", 1, "/verif/.work")["run"](None)
+                if r.violations or r.inconclusive:
+                    print("miri warm-up reported:", r.violations[:1], r.inconclusive[:1])
             print("built %s in %.1fs" % (w, time.time() - t0), flush=True)
     except BuildError as e:
         print(str(e))
